@@ -28,26 +28,26 @@ Definition is_cont (b : N) : bool := in_rng 128 191 b.
         at the head of s have" (0: Go returns (RuneError,1)) ---- *)
 Definition utf8_len (s : bytes) : nat :=
   match s with
-  | [] => 0
+  | [] => 0%nat
   | b0 :: t =>
-    if b0 <? 128 then 1
+    if b0 <? 128 then 1%nat
     else if in_rng 194 223 b0 then
-      match t with b1 :: _ => if is_cont b1 then 2 else 0 | _ => 0 end
+      match t with b1 :: _ => if is_cont b1 then 2%nat else 0%nat | _ => 0%nat end
     else if in_rng 224 239 b0 then
       match t with
       | b1 :: b2 :: _ =>
         if in_rng (if b0 =? 224 then 160 else 128) (if b0 =? 237 then 159 else 191) b1 && is_cont b2
-        then 3 else 0
-      | _ => 0 end
+        then 3%nat else 0%nat
+      | _ => 0%nat end
     else if in_rng 240 244 b0 then
       match t with
       | b1 :: b2 :: b3 :: _ =>
         if in_rng (if b0 =? 240 then 144 else 128) (if b0 =? 244 then 143 else 191) b1
            && is_cont b2 && is_cont b3
-        then 4 else 0
-      | _ => 0 end
-    else 0
-  end%nat.
+        then 4%nat else 0%nat
+      | _ => 0%nat end
+    else 0%nat
+  end.
 
 (* ---- encoding/json appendString (escapeHTML = true) ---- *)
 Definition hexd (n : N) : N := if n <? 10 then 48 + n else 87 + n.   (* "0123456789abcdef" *)
@@ -66,7 +66,7 @@ Definition esc_ascii (b : N) : bytes :=
   else if b =? 9 then [92; 116]
   else [92; 117; 48; 48; hexd (b / 16); hexd (b mod 16)].
 
-Definition esc_fffd : bytes := [92; 117; 102; 102; 102; 100].        (* � *)
+Definition esc_fffd : bytes := [92; 117; 102; 102; 102; 100].        (* backslash ufffd *)
 Definition utf_fffd : bytes := [239; 191; 189].                      (* U+FFFD in UTF-8 *)
 
 (* U+2028 / U+2029 = E2 80 A8 / E2 80 A9 *)
@@ -121,8 +121,8 @@ Fixpoint utf8_valid (s : bytes) : bool :=
   end.
 
 (* ---- the record ---- *)
-Definition rec_pre : bytes := [123;34;100;97;116;101;116;105;109;101;34;58;34]. (* {"datetime":" *)
-Definition rec_mid : bytes := [44;34;98;108;111;99;107;34;58;34].               (* ,"block":"   *)
+Definition rec_pre : bytes := [123;34;100;97;116;101;116;105;109;101;34;58;34]. (* {"datetime":"" without the last quote *)
+Definition rec_mid : bytes := [44;34;98;108;111;99;107;34;58;34].               (* ,"block":"" without the last quote *)
 
 Definition encode_record (ts blk : bytes) : bytes :=
   rec_pre ++ ts ++ 34 :: rec_mid ++ esc blk ++ [34; 125].
